@@ -38,6 +38,11 @@ func RunDebug(cmd string, args ...string) error {
 }
 
 func OutputDebug(cmd string, args ...string) (string, error) {
+	return OutputDebugDir("", cmd, args...)
+}
+
+// OutputDebugDir is like OutputDebug, but runs the command in the given directory.
+func OutputDebugDir(dir, cmd string, args ...string) (string, error) {
 	env, err := EnvWithCurrentGOOS()
 	if err != nil {
 		return "", err
@@ -49,6 +54,7 @@ func OutputDebug(cmd string, args ...string) (string, error) {
 	c.Env = env
 	c.Stderr = errbuf
 	c.Stdout = buf
+	c.Dir = dir
 	if err := c.Run(); err != nil {
 		errMsg := strings.TrimSpace(errbuf.String())
 		debug.Print("error running '", cmd, strings.Join(args, " "), "': ", err, ": ", errMsg)
